@@ -6,7 +6,18 @@ for l in open('/verif/properties.jsonl'):
     p = json.loads(l)
     if p['id'] == pid:
         break
-d = '/tmp/mut/' + pid.lower()
+rnd = 2 if '--round2' in sys.argv else 1
+d = ('/tmp/mut2/' if rnd == 2 else '/tmp/mut/') + pid.lower()
+already = ''
+if rnd == 2:
+    import glob, os
+    prev = []
+    for m in sorted(glob.glob('/verif/seeded/%s-mut*/meta.json' % pid)):
+        try:
+            prev.append(' - ' + ' '.join((json.load(open(m)).get('summary') or '').split())[:400])
+        except Exception:
+            pass
+    already = '\nALREADY DONE by an earlier round (do NOT repeat these or trivial variants of them; pick different functions, different sentences of the property, different mechanisms):\n' + '\n'.join(prev) + '\n'
 print(f"""You are helping to test a verification effort that you know nothing about and must not look at (do not read anything under /verif or /work). Your working directory {d} is a scratch git worktree of the Go library golang/geo (Google's S2 geometry library, Go port). Offline sandbox: before any go command run `export GOFLAGS=-mod=mod GOPROXY=off GOSUMDB=off GOTOOLCHAIN=local`. `go build ./... && go test ./...` passes on the unchanged tree (takes ~10 s).
 
 PROPERTY {p['id']} — {p['title']}
@@ -14,6 +25,7 @@ Statement: {p['statement']}
 It must hold: {p['quantifier']['text']}.
 The mechanisms live mainly in: {', '.join(p['anchors']['files'])}.
 
+{already}
 TASK: produce TWO independent changes to the library's non-test source (each a small, realistic edit — the kind of regression, wrong refactoring, off-by-one, dropped special case, swapped argument, weakened constant or missing reset that a maintainer could plausibly introduce) such that each change BREAKS the property above, while the code still compiles and the ENTIRE existing test suite (`go test ./...`) still passes. Each change must need something specific to manifest — an unusual input, a boundary value, a particular multi-step sequence of operations, a particular interleaving, or two cooperating sites that each look fine alone — not something ordinary use would expose at once. The two changes should attack different sentences/mechanisms of the property.
 
 For each change i in (1, 2) deliver, under {d}/_out/change<i>/ :
